@@ -23,7 +23,7 @@
    hold requested (id, bytes) pairs; rows only name requested ids".  It collapses, when every
    program has run to completion, to the statement of the property. *)
 From Coq Require Import NArith List Bool.
-From DvcData Require Import Base.Val Model.Concurrent Proofs.ConcurrentProofs.
+From DvcData Require Import Base.Val Model.Concurrent Proofs.ConcurrentProofs Proofs.ConcurrentVerify.
 Import ListNotations.
 Open Scope N_scope.
 
@@ -142,3 +142,29 @@ Theorem C16_state_row_can_record_a_probe :
                w_rows w = [(ex_o, 2)] /\ oget ex_o (w_objs w) = Some (mkfile 2 [] true).
 Proof. exact ex_row_of_probe. Qed.
 Print Assumptions C16_state_row_can_record_a_probe.
+
+(* ---- verify=True (transfer(..., verify=True)): the post-add verification step [VerifyOk]/[VerifyDrop]
+   of the extended machine [vrun]; a vworld carries the (writer, id) pairs reported failed.
+
+   Full statement "all writers succeed" = no id is ever reported failed.  It holds when no writer
+   verifies (the extended machine is then the proved one) ... *)
+Theorem C16_no_verify_all_succeed : forall loc wls ps sched w' fl q,
+  consistent wls -> legal_all loc wls ps = true ->
+  vrun loc wls sched (w0, []) (lift ps) = Some ((w', fl), q) -> vdone q = true ->
+  fl = [] /\ good_final loc wls w' /\ forall o, view w' o = expected loc wls o.
+Proof. exact no_verify_all_succeed. Qed.
+Print Assumptions C16_no_verify_all_succeed.
+
+(* ... and is REFUTED with verification, for both store classes: writer 0 (verify=True) places the
+   object, writer 1's reflink probe truncates it, writer 0's own post-add verification reads the
+   empty file, removes it and reports the object failed - while writer 1 re-creates it, so the
+   final store is complete.  Witness by vm_compute; the same grant sequence reproduces on the
+   implementation (harness signature C16:root:verify-sees-probe-truncated-object). *)
+Theorem C16_verify_all_succeed_refuted : forall loc,
+  exists w q,
+    legal_all loc [ex_its; ex_its] [ex_prog_of loc; ex_prog_of loc] = true /\
+    vrun loc [ex_its; ex_its] vex_sched (w0, []) [vex_a; map Base (ex_prog_of loc)]
+      = Some ((w, [(0%nat, ex_o)]), q) /\
+    vdone q = true /\ view w ex_o = Some (ex_b, loc).
+Proof. exact verify_all_succeed_refuted. Qed.
+Print Assumptions C16_verify_all_succeed_refuted.
